@@ -44,7 +44,7 @@ let toks = function L l -> List.map (fun x -> n_of_int (num x)) l | _ -> failwit
 let optnat = function A "inf" -> None | x -> Some (natx x)
 
 let fn1x = function
-  | A "FId" -> FId | A "FFst" -> FFst | A "FSnd" -> FSnd | A "FDup" -> FDup
+  | A "FId" -> FId | A "FFst" -> FFst | A "FSnd" -> FSnd | A "FDup" -> FDup | A "FNew" -> FNew
   | L [A "FTag"; k] -> FTag (natx k) | L [A "FConst"; k] -> FConst (natx k)
   | _ -> failwith "fn1"
 let predx = function
@@ -123,6 +123,8 @@ let rec gx (x : sx) : g =
   | L [A "Var"; k] -> Var (natx k)
   | L [A "Boxed"; a] -> gx a
   | L [A "Pratt"; _; a; L ops] -> Pratt (gx a, List.map opx ops)
+  | L [A "GroupArr"; L l] -> GroupArr (List.map gx l)
+  | L [A "NestedIn"; a] -> NestedIn (gx a)
   (* text parsers: the derived grammars of coq/Model/Text.v, classes given as token sets *)
   | L [A "TextDigits"; d] -> ToSlice (RepUnit (text_digits (PTokIn (toks d))))
   | L [A "TextInt"; d; nz; z] -> text_int (PTokIn (toks d)) (PTokIn (toks nz)) (n_of_int (num z))
@@ -168,6 +170,7 @@ let rec pv (v : val0) =
   | VSpan (s, e) -> Buffer.add_string buf (Printf.sprintf "S%d.%d" (int_of_nat s) (int_of_nat e))
   | VSlice (s, e) -> Buffer.add_string buf (Printf.sprintf "Z%d.%d" (int_of_nat s) (int_of_nat e))
   | VTag (k, x) -> Buffer.add_string buf (Printf.sprintf "(G%d " (int_of_nat k)); pv x; Buffer.add_char buf ')'
+  | VNew -> Buffer.add_char buf 'K'
 
 let perr (e : err) =
   let (s, en) = e.espan in
@@ -200,11 +203,14 @@ let quirks =
   let q = getenv_default "CHUM_QUIRKS" "000000011" in
   let b i = String.length q > i && q.[i] = '1' in
   { q_zst_noop = b 0; q_look_trunc = b 1; q_trymap_drop = b 2; q_trymap_pos = b 3; q_maperr_drop = b 4;
-    q_exact_noalt = b 5; q_emptychoice_none = b 6; q_memo_take = b 7; memo_on = b 8 }
+    q_exact_noalt = b 5; q_emptychoice_none = b 6; q_memo_take = b 7; memo_on = b 8; nested = None }
 let q_mapped_empty =
   let q = getenv_default "CHUM_QUIRKS" "000000011" in String.length q > 9 && q.[9] = '1'
 
+let tree_sub : (n -> (n list * (nat * nat) list * nat) option) option ref = ref None
+
 let run_line (line : string) =
+  tree_sub := None;
   match parse_sx line with
   | L [id; ik; ek; md; gr; inp] ->
     let id = num id in
@@ -228,6 +234,27 @@ let run_line (line : string) =
                let spn = spn_mapped q_mapped_empty spans (nat_of_int eoi) in
                (List.map (fun (t, _, _) -> n_of_int t) trip, spn)
              | _ -> failwith "mapped input")
+          | A "tree" ->
+            (* token trees: leaves (t s e) and groups ((G id (children)) s e); the table of children is [sub] *)
+            let table : (int, (n list * (nat * nat) list * nat)) Hashtbl.t = Hashtbl.create 16 in
+            let rec level (l : sx list) : n list * (nat * nat) list * nat =
+              let items = List.map (function
+                  | L [L [A "G"; id; L ch]; s; e] ->
+                    let gid = num id in
+                    Hashtbl.replace table gid (level ch);
+                    (gid, num s, num e)
+                  | L [t; s; e] -> (num t, num s, num e)
+                  | _ -> failwith "tree token") l in
+              let n = List.length items in
+              let eoi = if n = 0 then 3 else (let (_, _, e) = List.nth items (n - 1) in e + 2) in
+              (List.map (fun (t, _, _) -> n_of_int t) items,
+               List.map (fun (_, s, e) -> (nat_of_int s, nat_of_int e)) items, nat_of_int eoi) in
+            (match inp with
+             | L l ->
+               let (tk, spans, eoi) = level l in
+               tree_sub := Some (fun t -> Hashtbl.find_opt table (int_of_n t));
+               (tk, spn_mapped q_mapped_empty spans eoi)
+             | _ -> failwith "tree input")
           | _ -> failwith "ikind") in
        let fuel = nat_of_int (3 * (sx_size gr + List.length tk) + 40) in
        if which = "sem" then
@@ -239,7 +266,10 @@ let run_line (line : string) =
           | Some (None, errs) -> Buffer.add_string buf "FAIL "; perrs errs
           | None -> Buffer.add_string buf "OOF")
        else
-       (match run_top quirks k tk spn fuel m g with
+       let q = match !tree_sub with
+         | None -> quirks
+         | Some sub -> nest_q (nat_of_int 6) quirks k q_mapped_empty (fun t -> match sub t with Some (a, b, c) -> Some ((a, b), c) | None -> None) fuel in
+       (match run_top q k tk spn fuel m g with
         | TRes (Some v, errs) ->
           Buffer.add_string buf "OK ";
           (match v with Some x -> pv x | None -> Buffer.add_char buf '-');
